@@ -308,7 +308,9 @@ func (a *sideEffectActor) InboxForwarding(c context.Context, inboxIRI *url.URL, 
 				for iter := it.Begin(); iter != it.End(); iter = iter.Next() {
 					id, err := ToId(iter)
 					if err != nil {
-						return err
+						// A member without an id has no inbox
+						// to forward to.
+						continue
 					}
 					recipients = append(recipients, id)
 				}
@@ -318,7 +320,9 @@ func (a *sideEffectActor) InboxForwarding(c context.Context, inboxIRI *url.URL, 
 				for iter := oit.Begin(); iter != oit.End(); iter = iter.Next() {
 					id, err := ToId(iter)
 					if err != nil {
-						return err
+						// A member without an id has no inbox
+						// to forward to.
+						continue
 					}
 					recipients = append(recipients, id)
 				}
